@@ -244,6 +244,32 @@ func checkTokenWiring(w *World, r *Report, ctor *ssa.Function, tokenIdx, profIdx
 			pos := w.InstrPos(ci)
 			tv := w.Resolve(c.Args[tokenIdx])
 			call, ok := tv.(*ssa.Call)
+			// a module helper whose only result is jwtauth.New(…): look at that call with the
+			// helper's parameters bound to the arguments
+			if ok && !strings.HasSuffix(calleeName(&call.Call), "go-chi/jwtauth/v5.New") {
+				if h := call.Call.StaticCallee(); h != nil && h.Blocks != nil && w.InModule(h) {
+					var inner *ssa.Call
+					nret := 0
+					allInstrs(h, func(in ssa.Instruction) {
+						if rt, ok := in.(*ssa.Return); ok && rt.Block() != h.Recover && len(rt.Results) == 1 {
+							nret++
+							inner, _ = w.Resolve(rt.Results[0]).(*ssa.Call)
+						}
+					})
+					if nret == 1 && inner != nil && strings.HasSuffix(calleeName(&inner.Call), "go-chi/jwtauth/v5.New") {
+						penv := map[*ssa.Parameter]ssa.Value{}
+						for i, p := range h.Params {
+							if i < len(call.Call.Args) {
+								penv[p] = w.Resolve(call.Call.Args[i])
+							}
+						}
+						saved := w.paramEnv
+						w.paramEnv = penv
+						defer func() { w.paramEnv = saved }()
+						call = inner
+					}
+				}
+			}
 			if !ok || !strings.HasSuffix(calleeName(&call.Call), "go-chi/jwtauth/v5.New") {
 				r.Viol("secret.token-auth", key, pos, "tokenAuth is "+w.AP(c.Args[tokenIdx])+", not jwtauth.New(…)")
 				continue
